@@ -31,6 +31,17 @@ let () =
     while true do
       let line = input_line stdin in
       match List.filter (fun s -> s <> "") (String.split_on_char ' ' (String.trim line)) with
+      | "X" :: k :: rest when rest <> [] ->
+          (* chain of k conversions through k+1 types: X k t0 t1 ... tk <components of the t0 value> *)
+          let k = int_of_string k in
+          let rec split n l = if n = 0 then ([], l) else (match l with x :: r -> let (a, b) = split (n - 1) r in (x :: a, b) | [] -> ([], [])) in
+          let (tys, comps) = split (k + 1) rest in
+          let tys = List.map (fun x -> types.(int_of_string x)) tys in
+          let cs = List.map (fun h -> z_of_u64 (Scanf.sscanf h "%Lx" (fun x -> x))) comps in
+          let rec go v = function
+            | a :: (b :: _ as tl) -> (match v with None -> None | Some x -> go (spec_conv a b x) tl)
+            | _ -> v in
+          print_endline (match go (Some cs) tys with None -> "U" | r -> show r)
       | "C" :: a :: t :: r :: comps when comps <> [] ->
           (* composition through a field of type t: caller type a -> t -> return type r *)
           let ta = types.(int_of_string a) and tt = types.(int_of_string t) and tr = types.(int_of_string r) in
